@@ -83,6 +83,7 @@ impl Scenario for Full {
             "add_byte_between_two_bits_of_a_frame",
             "ingestion_path_switched_mid_run",
             "sixteen_bit_word_through_add_word",
+            "user_supplied_scancode_set_behind_keyboard",
             "obs_three_or_more_events_queued",
             "obs_schedule_independence_checked",
             "obs_reinterleaving_moved_a_consumer_action",
@@ -98,6 +99,7 @@ impl Scenario for Full {
         cfg.layout = ((run / 2) % NLAYOUT_OBJS as u64) as u8;
         cfg.map = rng.bool();
         cfg.seed2 = rng.next();
+        cfg.obj = if (run / 2) % 8 == 5 { 1 } else { 0 };
         let rate_class = ((run / 2) % 4) as u8;
         cfg.rate = rate_class;
         let rate_pct = [0u64, 2, 10, 30][rate_class as usize];
@@ -110,6 +112,18 @@ impl Scenario for Full {
         let session = type_session(rng, &cfg, &p);
         let fault_limit = session.len() * 2 / 3;
         let mut path: u8 = rng.below(3) as u8; // 0 bit, 1 word, 2 byte
+        // a correlated fault: for a stretch every frame arrives with its parity bit inverted
+        let bad_parity_stretch: Option<(usize, usize)> = if rate_pct > 0 && rng.chance(1, 12) {
+            let len = match rng.below(3) {
+                0 => rng.range(30, 45),
+                1 => rng.range(250, 262),
+                _ => rng.range(258, 400),
+            } as usize;
+            Some((rng.below(fault_limit.max(1) as u64) as usize, len))
+        } else {
+            None
+        };
+        let mut stretch_left = 0usize;
         let mut ops: Vec<TOp> = Vec::new();
         let mut last_edge = 0u64;
         let mut pending_polls = 0u64;
@@ -129,7 +143,19 @@ impl Scenario for Full {
             if rng.chance(4, 100) {
                 ops.push(TOp { t, op: Op::SetCtrl { map: rng.bool() } });
             }
+            if let Some((at, len)) = bad_parity_stretch {
+                if si == at {
+                    stretch_left = len;
+                }
+            }
             for b in bytes {
+                if stretch_left > 0 {
+                    stretch_left -= 1;
+                    ops.push(TOp { t, op: Op::Frame { sent: b, fault: WFault::Flip(1 << 9), via: if path == 1 { Via::Word } else { Via::Bit } } });
+                    t += 11 * period;
+                    last_edge = t;
+                    continue;
+                }
                 let is_prefix = matches!(b, 0xE0 | 0xE1 | 0xF0);
                 let mut fault = WFault::None;
                 let mut extra_after: Vec<Op> = Vec::new();
@@ -154,7 +180,7 @@ impl Scenario for Full {
                             };
                             let via = if rng.bool() { Via::Bit } else { Via::Word };
                             let n = if rng.chance(1, 1500) {
-                                rng.range(65_530, 65_600) // unplugged for a minute: past the 16-bit mark
+                                rng.range(65_530, 66_200) // unplugged for a minute: past the 16-bit mark
                             } else if rng.chance(1, 2) {
                                 rng.range(2, 6)
                             } else {
@@ -273,7 +299,18 @@ impl Scenario for Full {
         let cfg = &trace.cfg;
         let lay = cfg.layout as usize % NLAYOUT_OBJS;
         let mut h = LogHash::new();
-        let mut kb = KbAny::new(cfg.set, DynLayout::object(lay), hc(cfg.map));
+        // in one batch out of eight the scancode stage behind the Keyboard is a user-supplied
+        // set (a spy around the real decoder) that records every byte it is handed
+        let spy_seen: std::rc::Rc<std::cell::RefCell<Vec<u8>>> = std::rc::Rc::new(std::cell::RefCell::new(Vec::new()));
+        let spying = cfg.obj == 1;
+        let mut kb = if spying {
+            KbAny::with_spy(cfg.set, DynLayout::object(lay), hc(cfg.map), spy_seen.clone())
+        } else {
+            KbAny::new(cfg.set, DynLayout::object(lay), hc(cfg.map))
+        };
+        let mut mirror_bytes: u64 = 0; // bytes the hand-wired scancode stage was fed
+        let mut mirror_last: u8 = 0;
+        let mut spy_checked: usize = 0;
         let mut mir = Mirror {
             ps2: Ps2Decoder::new(),
             set: DynSet::new(cfg.set),
@@ -372,6 +409,8 @@ impl Scenario for Full {
                             Err(e) => Res::Err(e),
                             Ok(b) => {
                                 feed_byte_models(b, &mut m2, &mut m1);
+                                mirror_bytes += 1;
+                                mirror_last = b;
                                 Res::of(&mir.set.advance_state(b))
                             }
                         };
@@ -401,7 +440,9 @@ impl Scenario for Full {
                                 Ok(None) => Res::Pending,
                                 Ok(Some(b)) => {
                                     feed_byte_models(b, &mut m2, &mut m1);
-                                    Res::of(&mir.set.advance_state(b))
+                                    mirror_bytes += 1;
+                                mirror_last = b;
+                                Res::of(&mir.set.advance_state(b))
                                 }
                             };
                             let _ = fr.add_bit(bit);
@@ -440,6 +481,8 @@ impl Scenario for Full {
                         Err(e) => Res::Err(e),
                         Ok(b) => {
                             feed_byte_models(b, &mut m2, &mut m1);
+                            mirror_bytes += 1;
+                            mirror_last = b;
                             Res::of(&mir.set.advance_state(b))
                         }
                     };
@@ -482,6 +525,8 @@ impl Scenario for Full {
                     last_path = Some(2);
                     let rk = Res::of(&kb.add_byte(b));
                     feed_byte_models(b, &mut m2, &mut m1);
+                    mirror_bytes += 1;
+                    mirror_last = b;
                     let rm = Res::of(&mir.set.advance_state(b));
                     env.cov.api_calls += 2;
                     env.cov.evaluations += 1;
@@ -561,6 +606,27 @@ impl Scenario for Full {
                 if a == *b2 {
                     env.cov.fault("dup_frame");
                 }
+            }
+            // the scancode stage behind the Keyboard was handed exactly the bytes the hand-wired
+            // one was: every accepted byte, nothing else, nothing twice, nothing skipped
+            if spying {
+                let seen = spy_seen.borrow();
+                env.cov.evaluations += 1;
+                env.cov.probe("user_supplied_scancode_set_behind_keyboard");
+                if seen.len() as u64 != mirror_bytes || (seen.len() > spy_checked && *seen.last().unwrap() != mirror_last) {
+                    fail!(
+                        'ops,
+                        i,
+                        "mirror-of-three-stages",
+                        "after {}: the scancode stage behind Keyboard has been handed {} bytes (last {:02X?}), the hand-wired one {} (last {:02X})",
+                        op_show(&top.op),
+                        seen.len(),
+                        seen.last(),
+                        mirror_bytes,
+                        mirror_last
+                    );
+                }
+                spy_checked = seen.len();
             }
             // after every operation: the observable event-stage state equals the mirror's
             env.cov.evaluations += 1;
@@ -823,22 +889,45 @@ impl Scenario for Chaos {
             // of times in a row (counters must not run away)
             if rng.chance(1, 400) {
                 let reps = if rng.chance(1, 60) {
-                    rng.range(65_530, 65_600) // past the 16-bit mark
+                    rng.range(65_530, 66_200) // past the 16-bit mark
                 } else if rng.bool() {
                     rng.range(250, 262)
                 } else {
                     rng.range(258, 600)
                 };
+                let fb = rng.byte();
+                let fw = crate::model::bits_word(&crate::model::encode_frame(fb));
                 let flood = match op {
                     Op::Byte { .. } => Op::Byte { b: *rng.pick(&[0xFFu8, 0xFE, 0xFA, 0xEE, 0x00, 0xAA, 0x1C, 0xF0, 0xE0]) },
                     Op::Ev { key, .. } => Op::Ev { key, st: 1 },
-                    Op::Noise { .. } | Op::Word16 { .. } => Op::Noise { word: if rng.bool() { 0x7FF } else { 0x000 }, via: Via::Word },
+                    // whole frames, bit by bit or as words: valid ones, ones whose only fault is the
+                    // parity bit (an even-parity device), a line stuck high or low
+                    Op::Noise { .. } | Op::Word16 { .. } => Op::Noise {
+                        word: match rng.below(4) {
+                            0 => fw,
+                            1 => fw ^ 0x200,
+                            2 => 0x7FF,
+                            _ => 0x000,
+                        },
+                        via: if rng.bool() { Via::Bit } else { Via::Word },
+                    },
                     other => other,
                 };
+                let tap = matches!(op, Op::Byte { .. }) && rng.chance(1, 3);
                 for _ in 0..reps {
                     if let Op::Clear = flood {
                         // a timeout that discards a partial frame, over and over
                         ops.push(TOp { t, op: Op::Edge { bit: rng.bool() } });
+                    }
+                    if tap {
+                        // one key tapped over and over: make, break (both encodings; the objects
+                        // reading the other set see garbage, which is fine here)
+                        let c = 0x1C + (fb & 7);
+                        ops.push(TOp { t, op: Op::Byte { b: c } });
+                        ops.push(TOp { t, op: Op::Byte { b: 0xF0 } });
+                        ops.push(TOp { t, op: Op::Byte { b: c } });
+                        ops.push(TOp { t, op: Op::Byte { b: c | 0x80 } });
+                        continue;
                     }
                     ops.push(TOp { t, op: flood });
                 }
@@ -947,6 +1036,18 @@ impl Scenario for Chaos {
                         _ => ps2.add_bit(bit).map(|_| ()),
                     };
                     h.mix(r.is_ok() as u64);
+                }
+                Op::Noise { word, via: Via::Bit } => {
+                    for bit in crate::model::word_bits(word & 0x7FF) {
+                        bits_since_clear += 1;
+                        let r = match obj {
+                            4 => kb1.add_bit(bit).map(|_| ()),
+                            5 => kb2.add_bit(bit).map(|_| ()),
+                            _ => ps2.add_bit(bit).map(|_| ()),
+                        };
+                        env.cov.api_calls += 1;
+                        h.mix(r.is_ok() as u64);
+                    }
                 }
                 Op::Word16 { w } | Op::Noise { word: w, .. } => {
                     env.cov.hit("u16_words_to_add_word", w as usize);
